@@ -91,10 +91,17 @@ def referenced(doc):
     return ref
 
 
-def list_edit(r, lst, make, removable=lambda o: True):
-    """one positional edit of a python list; returns description or None"""
-    k = r.choice(['append', 'insert', 'insert0', 'remove', 'remove2', 'pop', 'swap', 'reverse', 'setitem', 'delslice'])
+def list_edit(r, lst, make, removable=lambda o: True, again=None):
+    """one positional edit of a python list; returns description or None.
+    again: a predicate for elements that may be listed a second time (the same transform applied again, the same instance placed twice)"""
+    k = r.choice(['append', 'insert', 'insert0', 'remove', 'remove2', 'pop', 'swap', 'reverse', 'setitem', 'delslice'] + (['again'] if again else []))
     n = len(lst)
+    if k == 'again':
+        c = [o for o in lst if again(o)]
+        if not c:
+            return None
+        lst.insert(r.randint(0, n), r.choice(c))
+        return k
     if k == 'append':
         o = make()
         if o is None:
@@ -187,7 +194,9 @@ def apply(doc, case_seed, i, gen, kinds=None):
         def mk():
             k = r.choice(['geom', 'light', 'cam', 'node', 'inode'])
             if k == 'geom' and doc.geometries:
-                return scene.GeometryNode(r.choice(list(doc.geometries)), [gen.matnode()] if doc.materials and r.random() < 0.5 else [])
+                if doc.materials and r.random() < 0.5:
+                    return scene.GeometryNode(r.choice(list(doc.geometries)), [gen.matnode()])
+                return scene.GeometryNode(r.choice(list(doc.geometries)))
             if k == 'light' and doc.lights:
                 return scene.LightNode(r.choice(list(doc.lights)))
             if k == 'cam' and doc.cameras:
@@ -198,13 +207,13 @@ def apply(doc, case_seed, i, gen, kinds=None):
             if k == 'node':
                 return gen.node(0, libnodes=ok)
             return None
-        d = list_edit(r, n.children, mk)
+        d = list_edit(r, n.children, mk, again=lambda o: not isinstance(o, scene.Node) or isinstance(o, scene.NodeNode))
         return d and 'node_children:' + d
     if kind == 'transforms':
         if not nodes:
             return None
         n = r.choice(nodes)
-        d = list_edit(r, n.transforms, gen.transform)
+        d = list_edit(r, n.transforms, gen.transform, again=lambda o: True)
         return d and 'transforms:' + d
     if kind in ('matbind', 'matinputs'):
         gnodes = [c for n in nodes for c in n.children if isinstance(c, scene.GeometryNode)]
